@@ -18,19 +18,22 @@ optimized grammar) are FALSE of the model; they are kept as named propositions a
 concrete grammars (`vm_refines_denote_refuted_*`, `vm_terminates_refuted`). What holds — and is proved
 here for every optimized grammar, start rule, input and amount of fuel — are
 `vm_refines_denote_partial` and `vm_terminates_partial`, under side conditions that exclude exactly
-the three classes of counterexamples:
+the two classes of counterexamples:
 
 * a node tag on an expression that emits no token tags the PREVIOUS token (`tag_node` patches
   `queue.last_mut()`), and without `grammar-extras` the restorer does not look inside `#t = e`
   (side condition `TagRules`: node tags only with `grammar-extras` and only on operands that are
   guaranteed to emit a token in every mode the enclosing rule can be entered in; in particular every
   grammar without node tags qualifies);
-* the implicit `skip` (`WHITESPACE`/`COMMENT` between sequence elements) is not an expression of the
-  grammar, so the restorer never wraps it: a `WHITESPACE`/`COMMENT` that fails after popping
-  (`POP`, `POP_ALL`) leaves the stack changed — results differ, and the VM can even loop for ever
-  where the reference answers;
 * (a model artefact) "undefined rule" is `call 1000000000`, an existing slot once the grammar has more
   than 333 333 333 rules.
+
+A third class is gone since the restorer fix: the implicit `skip` (`WHITESPACE`/`COMMENT` between
+sequence elements) is not an expression of the grammar, so the restorer never wrapped it — a
+`WHITESPACE`/`COMMENT` that failed after popping (`POP`, `POP_ALL`) left the stack changed. The restorer
+now wraps the whole body of a stack-modifying `WHITESPACE`/`COMMENT` rule in `restore_on_err`, and no
+side condition on these rules is needed any more (`ws_pop_example_agrees`,
+`ws_popall_example_agrees` are the former counterexamples).
 -/
 namespace PestModel.C01
 open PestModel.G PestModel.PS PestModel.Lower PestModel.Ref
@@ -52,7 +55,7 @@ grammar: whatever definite outcome the VM model reaches is the outcome the refer
 assigns to the same (optimized) grammar: on success the same end position and stack and a token queue
 that is exactly the encoding of the reference's forest of pairs; a failure is a failure; a Rust panic
 is a `stuck` (documented panic: `PEEK`/`POP` on an empty stack, undefined rule).
-FALSE as it stands: `vm_refines_denote_refuted_tag`, `vm_refines_denote_refuted_ws`,
+FALSE as it stands: `vm_refines_denote_refuted_tag`,
 `vm_refines_denote_refuted_tag_noextras`, `vm_refines_denote_refuted_undefined_slot`; true under side
 conditions: `vm_refines_denote_partial`. -/
 def VmRefinesDenoteStmt : Prop :=
@@ -83,13 +86,11 @@ conditions that turned out to be necessary (see the refutations below):
   in the current atomicity mode, possibly inside `~`, `|` (both sides), `PUSH`, `+`, another tag) in
   every mode the enclosing rule can be entered in (`VmRef.Reach`); grammars without node tags satisfy
   it trivially (`vm_refines_denote_notag`);
-* `hws`/`hcm`: the restorer's own analysis (`modifies`) says that the implicit `WHITESPACE` / `COMMENT`
-  rules do not touch the stack;
+  (no condition on `WHITESPACE` / `COMMENT`: a body that modifies the stack is wrapped in
+  `restore_on_err` as a whole by the restorer, `VmRef.not_dirty_wscm`);
 * `hsize`: at most a third of a billion rules (the model's "undefined rule" is `call 1000000000`). -/
 theorem vm_refines_denote_partial (extras : Bool) (rs : List ORule) (hopt : Optimized extras rs)
     (htag : PestModel.VmRef.TagRules extras rs)
-    (hws : modifies extras rs (.ident "WHITESPACE") = false)
-    (hcm : modifies extras rs (.ident "COMMENT") = false)
     (hsize : rs.length ≤ 333333333)
     (uni : String → Option CharSet) (memchr detail : Bool) (fuel : Nat) (name : String) (input : Str) :
     match vmParse rs uni memchr detail fuel name input with
@@ -100,7 +101,7 @@ theorem vm_refines_denote_partial (extras : Bool) (rs : List ORule) (hopt : Opti
     | .fuel => True := by
   have htx : ∀ r ∈ rs, PestModel.VmRef.tagsExtras extras r.expr := fun r hr =>
     PestModel.VmRef.tagsExtras_of_tagOK (htag r hr .nonAtomic (.entry r.name))
-  have hgood := PestModel.VmRef.goodRules_of_optimized extras rs hopt htx hws hcm
+  have hgood := PestModel.VmRef.goodRules_of_optimized extras rs hopt htx
   have h := PestModel.VmRef.refines_top' { rules := rs, uni } extras memchr detail input hsize hgood htag
     fuel name
   unfold vmParse
@@ -127,23 +128,19 @@ reference assigns a definite outcome, the VM model reaches a definite outcome to
 `vm_refines_denote_partial`, is that one). -/
 theorem vm_terminates_partial (extras : Bool) (rs : List ORule) (hopt : Optimized extras rs)
     (htag : PestModel.VmRef.TagRules extras rs)
-    (hws : modifies extras rs (.ident "WHITESPACE") = false)
-    (hcm : modifies extras rs (.ident "COMMENT") = false)
     (hsize : rs.length ≤ 333333333)
     (uni : String → Option CharSet) (memchr detail : Bool) (name : String) (input : Str) (r : Res)
     (h : Means (ofOptimizedRules rs) extras uni name input r) :
     ∃ fuel, vmParse rs uni memchr detail fuel name input ≠ .fuel := by
   have htx : ∀ r ∈ rs, PestModel.VmRef.tagsExtras extras r.expr := fun r hr =>
     PestModel.VmRef.tagsExtras_of_tagOK (htag r hr .nonAtomic (.entry r.name))
-  have hgood := PestModel.VmRef.goodRules_of_optimized extras rs hopt htx hws hcm
+  have hgood := PestModel.VmRef.goodRules_of_optimized extras rs hopt htx
   exact PestModel.VmRef.terminates_top { rules := rs, uni } extras memchr detail input hsize hgood htag
     name r h
 
 /-- the special case of grammars without node tags. -/
 theorem vm_refines_denote_notag (extras : Bool) (rs : List ORule) (hopt : Optimized extras rs)
     (htag : ∀ r ∈ rs, PestModel.VmRef.noTag r.expr = true)
-    (hws : modifies extras rs (.ident "WHITESPACE") = false)
-    (hcm : modifies extras rs (.ident "COMMENT") = false)
     (hsize : rs.length ≤ 333333333)
     (uni : String → Option CharSet) (memchr detail : Bool) (fuel : Nat) (name : String) (input : Str) :
     match vmParse rs uni memchr detail fuel name input with
@@ -152,25 +149,21 @@ theorem vm_refines_denote_notag (extras : Bool) (rs : List ORule) (hopt : Optimi
     | .err _ => Means (ofOptimizedRules rs) extras uni name input .fail
     | .panic => Means (ofOptimizedRules rs) extras uni name input .stuck
     | .fuel => True :=
-  vm_refines_denote_partial extras rs hopt (PestModel.VmRef.tagRules_of_noTag extras rs htag) hws hcm hsize
+  vm_refines_denote_partial extras rs hopt (PestModel.VmRef.tagRules_of_noTag extras rs htag) hsize
     uni memchr detail fuel name input
 
 theorem vm_terminates_notag (extras : Bool) (rs : List ORule) (hopt : Optimized extras rs)
     (htag : ∀ r ∈ rs, PestModel.VmRef.noTag r.expr = true)
-    (hws : modifies extras rs (.ident "WHITESPACE") = false)
-    (hcm : modifies extras rs (.ident "COMMENT") = false)
     (hsize : rs.length ≤ 333333333)
     (uni : String → Option CharSet) (memchr detail : Bool) (name : String) (input : Str) (r : Res)
     (h : Means (ofOptimizedRules rs) extras uni name input r) :
     ∃ fuel, vmParse rs uni memchr detail fuel name input ≠ .fuel :=
-  vm_terminates_partial extras rs hopt (PestModel.VmRef.tagRules_of_noTag extras rs htag) hws hcm hsize
+  vm_terminates_partial extras rs hopt (PestModel.VmRef.tagRules_of_noTag extras rs htag) hsize
     uni memchr detail name input r h
 
 /-- the two together: the VM and the reference agree on every definite result. -/
 theorem vm_agrees_partial (extras : Bool) (rs : List ORule) (hopt : Optimized extras rs)
     (htag : PestModel.VmRef.TagRules extras rs)
-    (hws : modifies extras rs (.ident "WHITESPACE") = false)
-    (hcm : modifies extras rs (.ident "COMMENT") = false)
     (hsize : rs.length ≤ 333333333)
     (uni : String → Option CharSet) (memchr detail : Bool) (name : String) (input : Str) (r : Res)
     (h : Means (ofOptimizedRules rs) extras uni name input r) :
@@ -180,8 +173,8 @@ theorem vm_agrees_partial (extras : Bool) (rs : List ORule) (hopt : Optimized ex
       | .err _ => r = .fail
       | .panic => r = .stuck
       | .fuel => False := by
-  obtain ⟨fuel, hf⟩ := vm_terminates_partial extras rs hopt htag hws hcm hsize uni memchr detail name input r h
-  have hp := vm_refines_denote_partial extras rs hopt htag hws hcm hsize uni memchr detail fuel name input
+  obtain ⟨fuel, hf⟩ := vm_terminates_partial extras rs hopt htag hsize uni memchr detail name input r h
+  have hp := vm_refines_denote_partial extras rs hopt htag hsize uni memchr detail fuel name input
   have det : ∀ r', Means (ofOptimizedRules rs) extras uni name input r' → r = r' := by
     intro r' h'
     rw [means_iff] at h h'
@@ -255,19 +248,39 @@ def cexWsSrc : List Rule :=
   [⟨"WHITESPACE", .silent, .ident "POP"⟩,
    ⟨"r", .normal, .seq (.push (.str ['a'])) (.str ['b'])⟩]
 
+/-- what the optimizer makes of it: the restorer wraps the whole `WHITESPACE` body. -/
 def cexWs : List ORule :=
-  [⟨"WHITESPACE", .silent, .ident "POP"⟩,
+  [⟨"WHITESPACE", .silent, .restoreOnErr (.ident "POP")⟩,
    ⟨"r", .normal, .seq (.push (.str ['a'])) (.str ['b'])⟩]
 
-/-- **Refutation 2 (stack-modifying `WHITESPACE`).** The implicit `skip` after `PUSH("a")` runs
-`repeat(WHITESPACE)`; `POP` pops `"a"`, fails to match it against `"b"` and the repeat ends — with the
-stack already popped (nothing restores it: the restorer only wraps expressions of the grammar). The VM
-ends with an empty stack, the reference with `["a"]`. (Reproduces on the real VM; with either feature
-set.) -/
-theorem vm_refines_denote_refuted_ws : ¬ VmRefinesDenoteStmt :=
-  refute_of_obs true cexWsSrc cexWs (by decide) 12 12 "r" ['a', 'b']
-    [.start 1 0, .end_ 0 1 none 2] 2 []
-    ⟨2, [['a']]⟩ [.node 1 0 2 none []] (by decide +kernel) (by rfl) (by decide)
+/-- **Former refutation 2 (stack-modifying `WHITESPACE`) — now an agreement.** The implicit `skip` after
+`PUSH("a")` runs `repeat(WHITESPACE)`; `POP` pops `"a"` and fails to match it against `"b"`. Before the
+restorer fix nothing restored the stack (the restorer only wrapped expressions of the grammar, and the
+implicit `skip` is not one): the VM ended with an empty stack, the reference with `["a"]`. Now the
+restorer wraps the body of a stack-modifying `WHITESPACE`/`COMMENT` rule as a whole, the failed attempt
+restores the stack, and the VM model and the reference agree on this example (either feature set):
+position 2, stack `["a"]`, and the VM's queue is the encoding of the reference's forest. -/
+theorem ws_pop_example_agrees (extras : Bool) :
+    optimizeWith extras true cexWsSrc = some cexWs ∧
+    outObs (vmParse cexWs (fun _ => none) true false 14 "r" ['a', 'b']) =
+      some ([.start 1 0, .end_ 0 1 none 2], 2, [['a']]) ∧
+    Ref.meaning (ofOptimizedRules cexWs) extras (fun _ => none) 14 "r" ['a', 'b'] =
+      .ok ⟨2, [['a']]⟩ [.node 1 0 2 none []] ∧
+    PestModel.Views.build [.node 1 0 2 none []] = [.start 1 0, .end_ 0 1 none 2] := by
+  refine ⟨by cases extras <;> decide, by decide +kernel, by cases extras <;> rfl, by decide⟩
+
+/-- **Former refutation of termination — now an agreement.**
+`WHITESPACE = _{ POP_ALL }  r = _{ PUSH("a") ~ "b" ~ "c" }` on `"abc"`: before the restorer fix the first
+implicit `skip` emptied the stack (a failed `POP_ALL` was not restored) and on the empty stack `POP_ALL`
+succeeds without consuming, so the second `skip`'s `repeat(WHITESPACE)` never ended. Now the failed
+`POP_ALL` restores the stack and both sides succeed at position 3 with stack `["a"]`. -/
+theorem ws_popall_example_agrees (extras : Bool) :
+    optimizeWith extras true PestModel.VmRef.wsPopAllSrc = some PestModel.VmRef.wsPopAll ∧
+    outObs (vmParse PestModel.VmRef.wsPopAll (fun _ => none) true false 20 "r" ['a', 'b', 'c']) =
+      some ([], 3, [['a']]) ∧
+    Ref.meaning (ofOptimizedRules PestModel.VmRef.wsPopAll) extras (fun _ => none) 20 "r" ['a', 'b', 'c'] =
+      .ok ⟨3, [['a']]⟩ [] := by
+  refine ⟨PestModel.VmRef.wsPopAll_opt extras, by decide +kernel, by cases extras <;> rfl⟩
 
 /-- `r = { PUSH("a") ~ (#t = POP)? ~ "b" }` WITHOUT grammar-extras, input `"ab"`. -/
 def cexTagNoExtrasSrc : List Rule :=
@@ -276,7 +289,7 @@ def cexTagNoExtrasSrc : List Rule :=
 def cexTagNoExtras : List ORule :=
   [⟨"r", .normal, .seq (.push (.str ['a'])) (.seq (.opt (.nodeTag (.ident "POP") ['t'])) (.str ['b']))⟩]
 
-/-- **Refutation 3 (node tag without grammar-extras).** Without the feature neither
+/-- **Refutation 2 (node tag without grammar-extras).** Without the feature neither
 `iter_top_down` (in `child_modifies_state`) nor `map_bottom_up` descends into `NodeTag`, so the `POP`
 under the `?` is not seen and not wrapped in `restore_on_err`: the failed `POP` leaves the stack
 popped. (With grammar-extras the optimizer wraps it and both sides agree. The real meta-parser only
@@ -287,7 +300,7 @@ theorem vm_refines_denote_refuted_tag_noextras : ¬ VmRefinesDenoteStmt :=
     [.start 1 0, .end_ 0 0 none 2] 2 []
     ⟨2, [['a']]⟩ [.node 0 0 2 none []] (by decide +kernel) (by rfl) (by decide)
 
-/-- **Refutation 4 (the "undefined rule" slot — an artefact of the model's encoding).** The lowering
+/-- **Refutation 3 (the "undefined rule" slot — an artefact of the model's encoding).** The lowering
 encodes `panic!("undefined rule")` as `call 1000000000`. In a grammar with 333 333 334 rules
 (`r0 = _{ NOSUCH }` followed by 333 333 333 copies of `x = _{ "" }`) that slot exists: it is rule
 number 333 333 333 in the atomic context, so the VM model runs that rule and succeeds where the
@@ -309,20 +322,24 @@ theorem vm_refines_denote_refuted_undefined_slot : ¬ VmRefinesDenoteStmt := by
     cases this
   exact key 333333333 (by decide)
 
-theorem vm_refines_denote_refuted : ¬ VmRefinesDenoteStmt := vm_refines_denote_refuted_ws
+theorem vm_refines_denote_refuted : ¬ VmRefinesDenoteStmt := vm_refines_denote_refuted_tag
 
-/-- **Refutation of termination (stack-modifying `WHITESPACE`).**
-`WHITESPACE = _{ POP_ALL }  r = _{ PUSH("a") ~ "b" ~ "c" }` on `"abc"`: the first implicit `skip`
-empties the stack (a failed `POP_ALL` is not restored); on the empty stack `POP_ALL` succeeds without
-consuming, so the second `skip`'s `repeat(WHITESPACE)` never ends — the VM model has no definite
-outcome at any fuel (`cexDiv_diverges`), while the reference, whose failed `POP_ALL` leaves the stack
-alone, succeeds at position 3 with stack `["a"]`. -/
+/-- **Refutation of termination (node tag without grammar-extras).**
+`r = _{ PUSH("a") ~ (#t = POP_ALL)? ~ "b" ~ POP_ALL* }` WITHOUT grammar-extras on `"ab"`: the restorer
+does not look inside `#t = POP_ALL`, so the `?` operand is not wrapped in `restore_on_err` and the failed
+`POP_ALL` (it pops `"a"` and fails to match it against `"b"`) leaves the stack empty; on the empty stack
+`POP_ALL` succeeds without consuming, so `POP_ALL*` never ends — the VM model has no definite outcome at
+any fuel (`cexDiv_diverges`), while the reference, whose failed `POP_ALL` leaves the stack alone, ends
+`POP_ALL*` at once (`"a"` does not match at the end of input) and succeeds at position 2 with stack
+`["a"]`. (Like `vm_refines_denote_refuted_tag_noextras` a fact about the model's optimizer input space:
+the real meta-parser only produces `NodeTag` with the feature on. The former counterexample, a
+stack-modifying `WHITESPACE`, is gone: `ws_popall_example_agrees`.) -/
 theorem vm_terminates_refuted : ¬ VmTerminatesStmt := by
   intro H
-  have hm : Means (ofOptimizedRules PestModel.VmRef.cexDiv) true (fun _ => none) "r" ['a', 'b', 'c']
-      (.ok ⟨3, [['a']]⟩ []) := ⟨by simp, 12, by rfl⟩
-  obtain ⟨fuel, hf⟩ := H true PestModel.VmRef.cexDiv ⟨_, true, PestModel.VmRef.cexDiv_opt true⟩
-    (fun _ => none) true false "r" ['a', 'b', 'c'] _ hm
+  have hm : Means (ofOptimizedRules PestModel.VmRef.cexDiv) false (fun _ => none) "r" ['a', 'b']
+      (.ok ⟨2, [['a']]⟩ []) := ⟨by simp, 16, by rfl⟩
+  obtain ⟨fuel, hf⟩ := H false PestModel.VmRef.cexDiv ⟨_, true, PestModel.VmRef.cexDiv_opt⟩
+    (fun _ => none) true false "r" ['a', 'b'] _ hm
   exact hf (PestModel.VmRef.cexDiv_diverges fuel)
 
 /-! ### non-vacuity -/
@@ -348,11 +365,16 @@ example : ∃ rs, optimizeWith false true exRules = some rs ∧
 
 /-- … and the proved theorems apply to it: it satisfies all side conditions. -/
 example : ∃ rs, optimizeWith false true exRules = some rs ∧
-    PestModel.VmRef.TagRules false rs ∧
-    modifies false rs (.ident "WHITESPACE") = false ∧ modifies false rs (.ident "COMMENT") = false ∧
-    rs.length ≤ 333333333 := by
+    PestModel.VmRef.TagRules false rs ∧ rs.length ≤ 333333333 := by
   refine ⟨(optimizeWith false true exRules).getD [], by decide,
-    PestModel.VmRef.tagRules_of_noTag _ _ (by decide), by decide, by decide, by decide⟩
+    PestModel.VmRef.tagRules_of_noTag _ _ (by decide), by decide⟩
+
+/-- … and so does a grammar whose `WHITESPACE` pops the stack (`WHITESPACE = _{ POP }`, the former
+counterexample): the optimizer's output has the body wrapped in `restore_on_err`. -/
+example : Optimized true cexWs ∧ PestModel.VmRef.TagRules true cexWs ∧ cexWs.length ≤ 333333333 ∧
+    lookupO cexWs "WHITESPACE" = some (.restoreOnErr (.ident "POP")) :=
+  ⟨⟨cexWsSrc, true, (ws_pop_example_agrees true).1⟩, PestModel.VmRef.tagRules_of_noTag _ _ (by decide),
+    by decide, by decide⟩
 
 /-- a grammar WITH a node tag that satisfies the side conditions (grammar-extras):
 `x = { "a" }  r = { #t = x ~ "b" }` — the tag sits on a reference to a normal rule, and `r` is only
@@ -374,12 +396,11 @@ theorem exTag_reach (n : String) (m : Atomicity) (h : PestModel.VmRef.Reach exTa
     · rfl
 
 example : Optimized true exTagRules ∧ PestModel.VmRef.TagRules true exTagRules ∧
-    modifies true exTagRules (.ident "WHITESPACE") = false ∧
-    modifies true exTagRules (.ident "COMMENT") = false ∧ exTagRules.length ≤ 333333333 ∧
+    exTagRules.length ≤ 333333333 ∧
     outObs (vmParse exTagRules (fun _ => none) true false 12 "r" ['a', 'b']) =
       some ([.start 3 0, .start 2 0, .end_ 1 0 (some ['t']) 1, .end_ 0 1 none 2], 2, []) := by
   refine ⟨⟨[⟨"x", .normal, .str ['a']⟩, ⟨"r", .normal, .seq (.nodeTag (.ident "x") ['t']) (.str ['b'])⟩],
-    true, by decide⟩, ?_, by decide, by decide, by decide, by decide +kernel⟩
+    true, by decide⟩, ?_, by decide, by decide +kernel⟩
   intro r hr m hm
   have := exTag_reach _ _ hm
   subst this
